@@ -532,6 +532,17 @@ Definition stream_api_closed (byuser : bool) (a : api) : rclass :=
   | _ => ROther
   end.
 
+(* a stream call that is PENDING (a writer blocked in WriteDataPoints because no flush loop exists during
+   an outage, a Flush caller, a consumer blocked in ReadDataPoints / ReadMetadata): every such wait has the
+   stream context as one of its arms, so it ends exactly when the stream context is cancelled *)
+Definition pending_stream_call (c : conn) (i : N) (a : api) : rclass :=
+  match find_s i (c_streams c) with
+  | Some s => match s_phase s with SClosed _ b => stream_api_closed b a | _ => RBlocked end
+  | None => ROther
+  end.
+Definition data_path (a : api) : bool :=
+  match a with AUpWrite | AUpFlush | ADownRead | ADownReadMeta => true | _ => false end.
+
 (* ------------------------------------------------------------------------------------------ *)
 (* projections of an output trace *)
 
